@@ -24,6 +24,7 @@ type FoldCase struct {
 	Mode  string    `json:"mode"`  // trace | override | remove-traced | remove-shared | fail | stock
 	Op    int       `json:"op"`    // operator concerned (override/remove/fail)
 	Embed bool      `json:"embed"` // go through a README-style embedding type
+	JSON  bool      `json:"json"`  // take the tree through a JSON round trip first (re-inferred leaf kinds)
 	Text  string    `json:"text,omitempty"`
 }
 
@@ -44,6 +45,13 @@ var builtTrees = []func() *expr.Expression{
 	func() *expr.Expression { return expr.MUSTNOT(expr.NOT(expr.LIKE("c", expr.WILD("a*")))) },
 	func() *expr.Expression { return expr.GREATER("a", expr.OR(expr.Lit("x"), expr.LESSEQ("b", 2))) },
 	func() *expr.Expression { return expr.WILD("w?") },
+	func() *expr.Expression {
+		return expr.IN("a", expr.LIST(expr.Lit("foo"), expr.WILD("b*r"), expr.REGEXP("/x/"), expr.Lit(2)))
+	},
+	func() *expr.Expression { return expr.Eq("name", "jo*n?") }, // LIKE built from raw strings
+	func() *expr.Expression {
+		return expr.OR(expr.Rang("a", expr.WILD("x*"), expr.REGEXP("/y/"), true), expr.Expr("c", expr.Equals, expr.WILD("d?")))
+	},
 }
 
 type myDriver struct{ driver.Base }
@@ -197,10 +205,21 @@ func (fc *foldCheck) child(x any, arg string, parentID int, side string) error {
 }
 
 func (c FoldCase) expr() *expr.Expression {
+	var e *expr.Expression
 	if c.Built >= 0 {
-		return builtTrees[c.Built%len(builtTrees)]()
+		e = builtTrees[c.Built%len(builtTrees)]()
+	} else {
+		e = c.Tree.Expr()
 	}
-	return c.Tree.Expr()
+	if c.JSON {
+		if raw, err := json.Marshal(e); err == nil {
+			var d expr.Expression
+			if json.Unmarshal(raw, &d) == nil {
+				return &d
+			}
+		}
+	}
+	return e
 }
 
 func render(m map[expr.Operator]driver.RenderFN, e *expr.Expression, embed bool) (string, error) {
@@ -422,11 +441,11 @@ func TestC15(t *testing.T) {
 	tcfg.Vals.Hostile = true
 	st.Rapid(t, "random-trees", cfg.N(40000, 2000000), func(rt *rapid.T) {
 		tree := gen.GenTree(tcfg).Draw(rt, "tree")
-		c := FoldCase{Tree: tree, Built: -1, Mode: rapid.SampledFrom(modes).Draw(rt, "mode"), Op: int(rapid.SampledFrom(allOps).Draw(rt, "op")), Embed: rapid.Bool().Draw(rt, "embed")}
+		c := FoldCase{Tree: tree, Built: -1, Mode: rapid.SampledFrom(modes).Draw(rt, "mode"), Op: int(rapid.SampledFrom(allOps).Draw(rt, "op")), Embed: rapid.Bool().Draw(rt, "embed"), JSON: rapid.IntRange(0, 3).Draw(rt, "json") == 0}
 		// bias the operator towards ones that occur in the tree
 		if rapid.Bool().Draw(rt, "present") {
 			per := map[expr.Operator]int{}
-			countNodes(tree.Expr(), per)
+			countNodes(c.expr(), per)
 			var present []int
 			for op := range per {
 				present = append(present, int(op))
@@ -437,5 +456,105 @@ func TestC15(t *testing.T) {
 		if !run("random-trees", c) {
 			rt.Fatalf("violation")
 		}
+	})
+
+	// driver isolation (model-based): drivers are created and customised in a random
+	// history; a model keeps a private copy of what each driver's map should hold.
+	// After every step: each driver renders like its model, the stock renderers still
+	// refuse ~ and ^, and driver.Shared is what it was at the start.
+	sharedSnapshot := map[expr.Operator]driver.RenderFN{}
+	for k, v := range driver.Shared {
+		sharedSnapshot[k] = v
+	}
+	defer func() { // never leak a polluted Shared into later checks of this process
+		for k := range driver.Shared {
+			if _, ok := sharedSnapshot[k]; !ok {
+				delete(driver.Shared, k)
+			}
+		}
+		for k, v := range sharedSnapshot {
+			driver.Shared[k] = v
+		}
+	}()
+	probes := []*expr.Expression{expr.AND(expr.FUZZY(expr.Eq("a", "b"), 2), expr.Eq("c", "d")), expr.BOOST(expr.Lit("x"), 2), expr.OR(expr.Eq("a", 1), expr.NOT(expr.LIKE("b", expr.WILD("c*")))), expr.MUSTNOT(expr.Rang("r", 1, 5, true))}
+	baseline := make([]string, len(probes))
+	for i, p := range probes {
+		s, err := driver.Base{RenderFNs: sharedSnapshot}.Render(p)
+		baseline[i] = fmt.Sprintf("%s|%v", s, err)
+	}
+	st.Rapid(t, "driver-isolation-machine", cfg.N(1500, 60000), func(rt *rapid.T) {
+		type drv struct {
+			d     driver.PostgresDriver
+			model map[expr.Operator]driver.RenderFN
+		}
+		var drivers []*drv
+		history := []string{}
+		fail := func(sub, format string, a ...any) {
+			f := report.Failf(sub, format+"  (history: %v)", append(a, history)...)
+			st.Violate("driver-isolation-machine", map[string]any{"history": history}, f)
+			rt.Fatalf("violation")
+		}
+		newDriver := func() {
+			d := driver.NewPostgresDriver()
+			m := map[expr.Operator]driver.RenderFN{}
+			for k, v := range d.RenderFNs {
+				m[k] = v
+			}
+			drivers = append(drivers, &drv{d, m})
+		}
+		newDriver()
+		st.Eval()
+		rt.Repeat(map[string]func(*rapid.T){
+			"new": func(t *rapid.T) {
+				history = append(history, "new")
+				newDriver()
+			},
+			"customise": func(t *rapid.T) {
+				i := rapid.IntRange(0, len(drivers)-1).Draw(t, "drv")
+				op := rapid.SampledFrom(allOps).Draw(t, "op")
+				tag := fmt.Sprintf("<%d:%v>", len(history), op)
+				fn := func(l, r string) (string, error) { return tag + l + "|" + r, nil }
+				history = append(history, fmt.Sprintf("drivers[%d].RenderFNs[%v]=custom", i, op))
+				drivers[i].d.RenderFNs[op] = fn
+				drivers[i].model[op] = fn
+			},
+			"remove": func(t *rapid.T) {
+				i := rapid.IntRange(0, len(drivers)-1).Draw(t, "drv")
+				op := rapid.SampledFrom(allOps).Draw(t, "op")
+				history = append(history, fmt.Sprintf("delete(drivers[%d].RenderFNs, %v)", i, op))
+				delete(drivers[i].d.RenderFNs, op)
+				delete(drivers[i].model, op)
+			},
+			"": func(t *rapid.T) {
+				for i, dv := range drivers {
+					for _, p := range probes {
+						got, gerr := dv.d.Render(p)
+						want, werr := driver.Base{RenderFNs: dv.model}.Render(p)
+						if got != want || (gerr == nil) != (werr == nil) {
+							fail("driver-aliasing", "drivers[%d] renders %#v as %q (%v) but its own function map gives %q (%v): another driver's customisation leaked into it", i, p, got, gerr, want, werr)
+						}
+					}
+				}
+				for _, q := range []string{"a:b~2 AND c:d", "x^2", "NOT (a:b c~)"} {
+					if s, err := lucene.ToPostgres(q); err == nil {
+						fail("stock-fuzzy-boost", "after customising private drivers, ToPostgres(%q) succeeds: %q", q, s)
+					}
+					if s, _, err := lucene.ToParameterizedPostgres(q); err == nil {
+						fail("stock-fuzzy-boost", "after customising private drivers, ToParameterizedPostgres(%q) succeeds: %q", q, s)
+					}
+				}
+				if len(driver.Shared) != len(sharedSnapshot) {
+					fail("shared-map-changed", "driver.Shared now has %d entries, it had %d", len(driver.Shared), len(sharedSnapshot))
+				}
+				for i, p := range probes {
+					s, err := driver.Base{RenderFNs: driver.Shared}.Render(p)
+					if got := fmt.Sprintf("%s|%v", s, err); got != baseline[i] {
+						fail("shared-map-changed", "rendering %#v with driver.Shared now gives %q, at the start %q", p, got, baseline[i])
+					}
+				}
+			},
+		})
+		st.Class("isolation-history")
+		st.NonTrivial(fmt.Sprint(history))
 	})
 }
